@@ -376,9 +376,124 @@ def hIMHSupport : Handler := fun c => do
         ("v", ratJ (rec_.foldr (· + ·) 0 / ((draws.length - burn : Nat) : Rat)))]
     pure (objJ [("fixed", one false), ("pinned", one true)])
 
+/-! ### the estimator OBJECT: a history of assignments and calls (sixth round) -/
+
+/-- `c19.life_is`: an ImportanceSamplingEstimator object with a history.
+{N, K, points: [{q, dq, p, dp:[..], f, q0, p0, f0}]  (`*0`: the alternative the object may be CONSTRUCTED
+with), ctor: {mc_samples, func, density, proposal (true = the alternative), self_normalize, is_log},
+warm (calls before the assignments), set: [attribute names assigned to their final values]}.
+The history is: construction, `warm` calls on the first tuple, the assignments, then one call per
+tuple of `tuples N Ω` on the SAME object.  Reply as `c19.is` (per_tuple = the results of those last
+calls), computed by `estRun isCall`. -/
+def hLifeIS : Handler := fun c => do
+  let N ← getNat c "N"
+  let K ← getNat c "K"
+  let pts ← getList pure c "points"
+  let ct ← field c "ctor"
+  let n0 ← getNat ct "mc_samples"
+  let (af, ad, ap) := (← getBool ct "func", ← getBool ct "density", ← getBool ct "proposal")
+  let (sn0, lg0) := (← getBool ct "self_normalize", ← getBool ct "is_log")
+  let warm ← getNat c "warm"
+  let sets ← getList jsonToStr c "set"
+  let rows ← pts.mapM fun pj => do
+    let dp ← getRatList pj "dp"
+    if dp.length != K then throw "dp length != K"
+    pure (← getRat pj "q", ← getRatD pj "dq" 0, ← getRat pj "p", dp, ← getRat pj "f",
+          ← getRat pj "q0", ← getRat pj "p0", ← getRat pj "f0")
+  let M := rows.length
+  let idx := List.range M
+  let res ← (List.range K).mapM fun j => do
+    let tab {β : Type} (g : (Rat × Rat × Rat × List Rat × Rat × Rat × Rat × Rat) → β) (d : β) : Nat → β :=
+      fun i => ((rows.map g)[i]?).getD d
+    let fF : Nat → Dual Rat := tab (fun r => ⟨r.2.2.2.2.1, 0⟩) 0
+    let fA : Nat → Dual Rat := tab (fun r => ⟨r.2.2.2.2.2.2.2, 0⟩) 0
+    let pF : Nat → Dual Rat := tab (fun r => ⟨r.2.2.1, r.2.2.2.1.getD j 0⟩) 0
+    let pA : Nat → Dual Rat := tab (fun r => ⟨r.2.2.2.2.2.2.1, 0⟩) 0
+    let qF : Nat → Dual Rat := tab (fun r => ⟨r.1, r.2.1⟩) 0
+    let qA : Nat → Dual Rat := tab (fun r => ⟨r.2.2.2.2.2.1, 0⟩) 0
+    let a0 : ISAttrs Rat Nat := ⟨n0, if af then fA else fF, if ad then pA else pF, if ap then qA else qF, sn0, lg0⟩
+    let upd : String → Except String (ISAttrs Rat Nat → ISAttrs Rat Nat) := fun nm =>
+      match nm with
+      | "mc_samples" => pure fun a => { a with mcSamples := N }
+      | "func" => pure fun a => { a with func := fF }
+      | "density" => pure fun a => { a with density := pF }
+      | "proposal" => pure fun a => { a with proposal := qF }
+      | "self_normalize" => pure fun a => { a with selfNormalize := false }
+      | "is_log" => pure fun a => { a with isLog := false }
+      | s => throw s!"c19.life_is: unknown attribute {s}"
+    let us ← sets.mapM upd
+    let ts := tuples N idx
+    let hist : List (EstOp (ISAttrs Rat Nat) (List Nat)) :=
+      (List.replicate warm (EstOp.call (ts.headD []))) ++ us.map EstOp.set ++ ts.map EstOp.call
+    let out := (estRun isCall a0 hist).2.drop warm
+    let vals ← out.mapM fun r => match r with
+      | some v => pure v
+      | none => throw "c19.life_is: a call after the assignments is outside the modelled mode"
+    let Ω : List (ISPt Rat) := rows.map fun r => ⟨r.1, r.2.1, ⟨r.2.2.1, r.2.2.2.1.getD j 0⟩, ⟨r.2.2.2.2.1, 0⟩⟩
+    let wq := fun (i : Nat) => (qF i).val
+    let mean := Dual.sum ((ts.zip vals).map fun tv => Dual.smul (weight wq tv.1) tv.2)
+    pure (vals, mean, Dual.sum (Ω.map fun b => b.p * b.f))
+  let nT := ((res.head?.map (·.1.length)).getD 0)
+  pure (objJ [
+    ("per_tuple", listJ (fun ds => multiJ ds 0) (transpose K (res.map (·.1)) nT)),
+    ("mean", multiJ (res.map (·.2.1)) 0),
+    ("exact", multiJ (res.map (·.2.2)) 0)])
+
+/-- `c19.life_imh`: an IndependentMetropolisHastingsEstimator object with a history.  The fields of
+`c19.imh` (the attribute values in force at the observed call, its draws and uniforms) plus
+{ratios0, f0, in_support0 (the alternatives), ctor: {mc_samples, burn_in, tries, init, ratio, func
+(true = the alternative), is_log}, is_log (in force at the observed call), warm, warm_draw, warm_lu,
+set: [names], calls (1 or 2: the observed call is the last)}. -/
+def hLifeIMH : Handler := fun c => do
+  let ratios ← getRatList c "ratios"
+  let fs ← getRatList c "f"
+  let sup ← getList jsonToBool c "in_support"
+  let N ← getNat c "N"
+  let burn ← getNat c "burn_in"
+  let tries ← getNat c "tries"
+  let init ← getOptNat c "init"
+  let draws ← getNatList c "draws"
+  let lus ← getList jsonToOptRat c "lus"
+  let ratios0 ← getRatList c "ratios0"
+  let fs0 ← getRatList c "f0"
+  let sup0 ← getList jsonToBool c "in_support0"
+  let ct ← field c "ctor"
+  let warm ← getNat c "warm"
+  let wd ← getNat c "warm_draw"
+  let wl ← getRat c "warm_lu"
+  let sets ← getList jsonToStr c "set"
+  let calls ← getNat c "calls"
+  let lgF ← getBool c "is_log"
+  let tabR (l : List Rat) : Nat → Rat := fun i => l.getD i 0
+  let tabB (l : List Bool) : Nat → Bool := fun i => l.getD i false
+  let ar ← getBool ct "ratio"
+  let af ← getBool ct "func"
+  let a0 : IMHAttrs Rat Nat := ⟨← getNat ct "mc_samples", ← getNat ct "burn_in", ← getNat ct "tries",
+    if af then tabR fs0 else tabR fs, if ar then tabR ratios0 else tabR ratios,
+    if ar then tabB sup0 else tabB sup, ← getOptNat ct "init", ← getBool ct "is_log"⟩
+  let upd : String → Except String (IMHAttrs Rat Nat → IMHAttrs Rat Nat) := fun nm =>
+    match nm with
+    | "mc_samples" => pure fun a => { a with mcSamples := N }
+    | "burn_in" => pure fun a => { a with burnIn := burn }
+    | "initial_sample_tries" => pure fun a => { a with tries := tries }
+    | "initial_sample" => pure fun a => { a with init := init }
+    | "func" => pure fun a => { a with func := tabR fs }
+    | "density" => pure fun a => { a with ratio := tabR ratios, inSupport := tabB sup }
+    | "proposal" => pure fun a => { a with ratio := tabR ratios, inSupport := tabB sup }
+    | "is_log" => pure fun a => { a with isLog := lgF }
+    | s => throw s!"c19.life_imh: unknown attribute {s}"
+  let us ← sets.mapM upd
+  let wcall : EstOp (IMHAttrs Rat Nat) (List Nat × List (Option Rat)) :=
+    .call (List.replicate 16 wd, List.replicate 16 (some wl))
+  let hist := List.replicate warm wcall ++ us.map EstOp.set ++ List.replicate calls (.call (draws, lus))
+  let run := estRun imhCall a0 hist
+  let a := run.1
+  let vals := imhValues a.ratio a.func a.inSupport a.mcSamples a.burnIn a.tries a.init draws lus
+  pure (objJ [("v", optJ ratJ (run.2.getLast?.getD none)), ("recorded", optJ (listJ ratJ) vals)])
+
 def handlers : List (String × Handler) := [
   ("c19.direct", hDirect), ("c19.is", hIS), ("c19.enumerate", hEnumerate), ("c19.imh", hIMH),
-  ("c19.imh_support", hIMHSupport),
+  ("c19.imh_support", hIMHSupport), ("c19.life_is", hLifeIS), ("c19.life_imh", hLifeIMH),
   ("c19.relax", hRelax), ("c19.srswor", hSrswor), ("c19.binom", hBinom),
   ("c19.enum_vocab", hEnumVocab), ("c19.enum_card", hEnumCard),
   ("c19.enum_card_tensor", hEnumCardTensor), ("c19.bern", hBern), ("c19.gumbel", hGumbel),
